@@ -47,7 +47,7 @@ impl Image {
 
         let visual_reference_node = node
             .children()
-            .find(|n| n.has_tag_name("visualReferenceRepresentation"));
+            .find(|n| crate::xml::is_tag(n, "visualReferenceRepresentation"));
         let visual_reference = if let Some(node) = visual_reference_node {
             Some(VisualReferenceImage::from_node(&node)?)
         } else {
@@ -71,9 +71,9 @@ impl Image {
 
     pub(crate) fn vec_from_document(document: &Document) -> Result<Vec<Self>> {
         let mut images = Vec::new();
-        if let Some(images2d_node) = document.descendants().find(|n| n.has_tag_name("images2D")) {
+        if let Some(images2d_node) = document.descendants().find(|n| crate::xml::is_tag(n, "images2D")) {
             for n in images2d_node.children() {
-                if n.has_tag_name("vectorChild") && n.attribute("type") == Some("Structure") {
+                if crate::xml::is_tag(&n, "vectorChild") && n.attribute("type") == Some("Structure") {
                     let image = Self::from_node(&n)?;
                     images.push(image);
                 }
@@ -138,21 +138,21 @@ impl Projection {
     pub(crate) fn from_image_node(image_node: &Node) -> Result<Option<Self>> {
         let pinhole = image_node
             .children()
-            .find(|n| n.has_tag_name("pinholeRepresentation"));
+            .find(|n| crate::xml::is_tag(n, "pinholeRepresentation"));
         if let Some(node) = &pinhole {
             return Ok(Some(Self::Pinhole(PinholeImage::from_node(node)?)));
         }
 
         let spherical = image_node
             .children()
-            .find(|n| n.has_tag_name("sphericalRepresentation"));
+            .find(|n| crate::xml::is_tag(n, "sphericalRepresentation"));
         if let Some(node) = &spherical {
             return Ok(Some(Self::Spherical(SphericalImage::from_node(node)?)));
         }
 
         let cylindrical = image_node
             .children()
-            .find(|n| n.has_tag_name("cylindricalRepresentation"));
+            .find(|n| crate::xml::is_tag(n, "cylindricalRepresentation"));
         if let Some(node) = &cylindrical {
             return Ok(Some(Self::Cylindrical(CylindricalImage::from_node(node)?)));
         }
@@ -190,12 +190,12 @@ pub struct ImageBlob {
 
 impl ImageBlob {
     pub(crate) fn from_rep_node(rep_node: &Node) -> Result<Self> {
-        if let Some(node) = &rep_node.children().find(|n| n.has_tag_name("jpegImage")) {
+        if let Some(node) = &rep_node.children().find(|n| crate::xml::is_tag(n, "jpegImage")) {
             Ok(Self {
                 data: Blob::from_node(node)?,
                 format: ImageFormat::Jpeg,
             })
-        } else if let Some(node) = &rep_node.children().find(|n| n.has_tag_name("pngImage")) {
+        } else if let Some(node) = &rep_node.children().find(|n| crate::xml::is_tag(n, "pngImage")) {
             Ok(Self {
                 data: Blob::from_node(node)?,
                 format: ImageFormat::Png,
